@@ -83,7 +83,7 @@ def _recognise_legacy(chk, scen):
 def _cases(chk, scen):
     rng = chk.rng
     quick = chk.tier == 'quick'
-    n_rand = 3000 if quick else 60000
+    n_rand = 2500 if quick else 60000
     boundary = scen.boundary_cases()
     rand = [scen.gen_case(rng, chk.tier, rng.choice(['', 'pre', 'pre', 'order', 'stop', 'src']))
             for _ in range(n_rand)]
@@ -100,7 +100,7 @@ def _cases(chk, scen):
         perms += list(scen.perm_cases(n, cap=2, pf=[1], rexc=True, kind='apmap'))
     # thread-mixing variants under the deterministic scheduler (E1 + cooperative-selector loop)
     asrv = importlib.import_module(SCEN_E1)
-    thr = [asrv.gen_case(rng, chk.tier, rng.choice(['', 'pre', 'pre'])) for _ in range(800 if quick else 20000)]
+    thr = [asrv.gen_case(rng, chk.tier, rng.choice(['', 'pre', 'pre'])) for _ in range(600 if quick else 20000)]
     return boundary, rand, perms, thr
 
 
